@@ -106,8 +106,9 @@ def parse(txt):
         m = re.search(r"Verification Time: ([\d.]+)s", body)
         if m:
             r["time_s"] = float(m.group(1))
-        for fm in re.finditer(r"Failed Checks: (.*)\n\s*File: \"([^\"]*)\", line (\d+), in (\S+)", body):
-            r["failed"].append({"desc": fm.group(1).strip(), "file": fm.group(2), "line": int(fm.group(3)), "fn": fm.group(4)})
+        # CBMC-level properties (e.g. the memory-leak check) have no source location line
+        for fm in re.finditer(r"Failed Checks: (.*)(?:\n\s*File: \"([^\"]*)\", line (\d+), in (\S+))?", body):
+            r["failed"].append({"desc": fm.group(1).strip(), "file": fm.group(2) or "-", "line": int(fm.group(3) or 0), "fn": fm.group(4) or "-"})
         if "VERIFICATION:- SUCCESSFUL" in body:
             r["status"] = "ok"
         elif "VERIFICATION:- FAILED" in body:
